@@ -387,6 +387,9 @@ impl ClusterStorage {
         let result_notifier = self.result_notifiers.remove(&log_id);
 
         tokio::spawn(async move {
+            #[cfg(agdb_verif)]
+            crate::verif::delay(log.index).await;
+
             let result = log.data.exec(db.clone(), db_pool).await;
             let _ = notifier.send(log.index);
             let _ = cluster_log.log_executed(log_id).await;
